@@ -64,6 +64,10 @@ struct ClassSet {
     alternatives: ClassSetAlternativeStrings,
     /// Whether operands are compared case-insensitively (the i flag is in force).
     icase: bool,
+    /// The static MayContainStrings of the expression parsed so far (ES2024 22.2.1.6):
+    /// any operand of a union, every operand of an intersection, the first operand of a
+    /// subtraction. A class for which this holds must not be negated.
+    may_contain_strings: bool,
 }
 
 impl ClassSet {
@@ -72,6 +76,7 @@ impl ClassSet {
             codepoints: CodePointSet::new(),
             alternatives: ClassSetAlternativeStrings::new(),
             icase,
+            may_contain_strings: false,
         }
     }
 
@@ -144,6 +149,7 @@ impl ClassSet {
     }
 
     fn union_operand(&mut self, operand: ClassSetOperand) {
+        self.may_contain_strings |= operand.may_contain_strings();
         let operand = self.case_closed(operand);
         match operand {
             ClassSetOperand::ClassSetCharacter(c) => {
@@ -163,6 +169,7 @@ impl ClassSet {
     }
 
     fn intersect_operand(&mut self, operand: ClassSetOperand) {
+        self.may_contain_strings &= operand.may_contain_strings();
         let operand = self.case_closed(operand);
         match operand {
             ClassSetOperand::ClassSetCharacter(c) => {
@@ -284,6 +291,40 @@ enum ClassSetOperand {
     CharacterClassEscape(CodePointSet),
     Class(ClassSet),
     ClassStringDisjunction(ClassSetAlternativeStrings),
+}
+
+impl ClassSetOperand {
+    /// ES MayContainStrings for an operand.
+    fn may_contain_strings(&self) -> bool {
+        match self {
+            ClassSetOperand::ClassSetCharacter(_) | ClassSetOperand::CharacterClassEscape(_) => {
+                false
+            }
+            ClassSetOperand::Class(class) => class.may_contain_strings,
+            ClassSetOperand::ClassStringDisjunction(_) => true,
+        }
+    }
+
+    /// Build the operand for a set of strings (\q{...} or a property of strings): strings of
+    /// exactly one code point are ordinary members of the code point set.
+    fn from_strings(strings: Vec<Box<[CodePoint]>>, icase: bool) -> ClassSetOperand {
+        let mut class = ClassSet::new(icase);
+        let mut longer = Vec::new();
+        for s in strings {
+            if s.len() == 1 {
+                class.codepoints.add_one(s[0]);
+            } else {
+                longer.push(s);
+            }
+        }
+        if class.codepoints.is_empty() {
+            ClassSetOperand::ClassStringDisjunction(ClassSetAlternativeStrings(longer))
+        } else {
+            class.may_contain_strings = !longer.is_empty();
+            class.alternatives = ClassSetAlternativeStrings(longer);
+            ClassSetOperand::Class(class)
+        }
+    }
 }
 
 /// A list of strings matching some property, for use in 'v' regular expressions.
@@ -780,10 +821,11 @@ where
                 '[' if self.flags.unicode_sets => {
                     self.consume('[');
                     let negate_set = self.try_consume('^');
-                    result.push(
-                        self.consume_class_set_expression(negate_set)?
-                            .node(self.flags.icase, negate_set),
-                    );
+                    let class = self.consume_class_set_expression(negate_set)?;
+                    if negate_set && class.may_contain_strings {
+                        return error("Negated character class may contain strings");
+                    }
+                    result.push(class.node(self.flags.icase, negate_set));
                 }
 
                 '[' => {
@@ -1269,7 +1311,7 @@ where
 
     fn consume_class_set_operand(
         &mut self,
-        in_negated_class: bool,
+        _in_negated_class: bool,
     ) -> Result<ClassSetOperand, Error> {
         use ClassSetOperand::*;
         let Some(cp) = self.peek() else {
@@ -1287,6 +1329,9 @@ where
                 let negate_set = self.try_consume('^');
                 let mut result = self.consume_class_set_expression(negate_set)?;
                 if negate_set {
+                    if result.may_contain_strings {
+                        return error("Negated character class may contain strings");
+                    }
                     // The complement is taken of the case-closed set.
                     if self.flags.icase {
                         result.codepoints = unicode::add_icase_code_points(result.codepoints);
@@ -1335,7 +1380,7 @@ where
                                 }
                             }
                         }
-                        Ok(ClassStringDisjunction(ClassSetAlternativeStrings(alternatives)))
+                        Ok(ClassSetOperand::from_strings(alternatives, self.flags.icase))
                     }
                     // CharacterClassEscape :: d
                     0x64 /* d */ => {
@@ -1376,9 +1421,16 @@ where
                                     intervals.to_vec(),
                                 )))
                             }
-                            PropertyEscapeKind::StringSet(_) if in_negated_class => error("Invalid character escape"),
                             PropertyEscapeKind::StringSet(strings) => {
-                                Ok(ClassStringDisjunction(ClassSetAlternativeStrings(strings.iter().map(|s| Box::from(*s)).collect())))
+                                let mut operand = ClassSetOperand::from_strings(
+                                    strings.iter().map(|s| Box::from(*s)).collect(),
+                                    self.flags.icase,
+                                );
+                                // A property of strings may contain strings whatever its current members.
+                                if let Class(class) = &mut operand {
+                                    class.may_contain_strings = true;
+                                }
+                                Ok(operand)
                             }
                         }
                     }
